@@ -150,10 +150,13 @@ var (
 	c06stackBuf  = make([]byte, 1<<16)
 	c06baseline  = -1
 	c06stackCall int64
+	c06liveCall  int64
 )
 
 func c06liveCheckers() int {
-	if c06baseline >= 0 && runtime.NumGoroutine() <= c06baseline {
+	shortcut := c06baseline >= 0 && runtime.NumGoroutine() <= c06baseline
+	c06liveCall++
+	if shortcut && c06liveCall%64 != 0 {
 		return 0
 	}
 	c06stackCall++
@@ -166,7 +169,12 @@ func c06liveCheckers() int {
 		}
 		c06stackBuf = make([]byte, 2*len(c06stackBuf))
 	}
-	return strings.Count(string(buf), "/bfe_balance/backend.check(")
+	n := strings.Count(string(buf), "/bfe_balance/backend.check(")
+	if shortcut && n != 0 {
+		// every 64th shortcut answer is cross-checked against a real dump
+		panic(fmt.Sprintf("c06: goroutine-count shortcut said 0 checkers, the dump shows %d", n))
+	}
+	return n
 }
 
 // ---------------------------------------------------------------------------------------------
@@ -182,6 +190,14 @@ func c06checkConf(c c06conf) *cluster_conf.BackendCheck {
 	return &cluster_conf.BackendCheck{Schem: &schem, Uri: &uri, StatusCode: &status, FailNum: &f, SuccNum: &s,
 		CheckTimeout: &to, CheckInterval: &iv}
 }
+
+// C06NewRR is set by c06x_verif_test.go (package backend_test, which may import bal_slb): it
+// builds a real BalanceRR holding one backend and returns that backend plus a function that
+// removes it the way a reload does ("update": BalanceRR.Update with a list that no longer has
+// it, "release": BalanceRR.Release) or reloads without removing it ("keep").
+var C06NewRR func(name, addr string, port int) (*BfeBackend, func(kind string))
+
+var c06relKinds = []string{"direct", "update", "release"}
 
 func c06newBackend() *BfeBackend {
 	b := NewBfeBackend()
@@ -201,10 +217,11 @@ const (
 	evChkTimeout
 	evTick
 	evRelease
+	evReloadKeep
 	c06numEv
 )
 
-var c06evName = [...]string{"reqOK", "reqFail", "chkOK", "chkErr", "chkBadStatus", "chkTimeout", "tick", "release"}
+var c06evName = [...]string{"reqOK", "reqFail", "chkOK", "chkErr", "chkBadStatus", "chkTimeout", "tick", "release", "reloadKeep"}
 
 type c06model struct {
 	F, S     int
@@ -316,6 +333,8 @@ type c06exec struct {
 	e    *c06env
 	b    *BfeBackend
 	m    *c06model
+	remove func(kind string) // reload through a real BalanceRR (nil: Release() is called directly)
+	relKind string
 	last  c06obs // observation at the latest quiescent point
 	hist  []string
 	bad   bool // a violation was recorded; stop judging this execution
@@ -339,6 +358,8 @@ func (x *c06exec) enabled(ev int) bool {
 		return npend == 0 && x.last.live > 0
 	case evRelease:
 		return !x.m.released
+	case evReloadKeep:
+		return !x.m.released && x.remove != nil
 	}
 	return false
 }
@@ -369,7 +390,9 @@ func (x *c06exec) do(ev int, id func() string) {
 	case evTick:
 		time.Sleep(c06intervalMs * time.Millisecond)
 	case evRelease:
-		x.b.Release()
+		x.release()
+	case evReloadKeep:
+		x.remove("keep")
 	}
 	synctest.Wait()
 	after := x.observe()
@@ -399,6 +422,15 @@ func (x *c06exec) do(ev int, id func() string) {
 	}
 }
 
+// release removes the backend: through the reload path of a real BalanceRR, or directly.
+func (x *c06exec) release() {
+	if x.remove != nil {
+		x.remove(x.relKind)
+		return
+	}
+	x.b.Release()
+}
+
 // finish ends the execution so that the bubble can terminate: removes the backend if the
 // history did not, lets two more intervals pass (judged: no further checks, clause 4), then
 // answers everything 200 so that even a checker that ignores Release terminates.
@@ -406,7 +438,7 @@ func (x *c06exec) finish(id func() string) {
 	if !x.m.released && !x.bad {
 		x.do(evRelease, id)
 	} else if !x.m.released {
-		x.b.Release()
+		x.release()
 	}
 	for i := 0; i < 2 && !x.bad; i++ {
 		if _, n := x.e.pending(); n > 0 {
@@ -446,7 +478,7 @@ func (x *c06exec) finish(id func() string) {
 }
 
 // c06bubble runs body inside a fresh bubble with a fresh backend and model.
-func c06bubble(t *testing.T, r *vk.Run, conf c06conf, body func(x *c06exec)) {
+func c06bubble(t *testing.T, r *vk.Run, conf c06conf, relKind string, body func(x *c06exec)) {
 	synctest.Test(t, func(t *testing.T) {
 		e := &c06env{}
 		c06curMu.Lock()
@@ -459,7 +491,12 @@ func c06bubble(t *testing.T, r *vk.Run, conf c06conf, body func(x *c06exec)) {
 			}
 			return cc
 		})
-		x := &c06exec{t: t, r: r, conf: conf, e: e, b: c06newBackend(), m: &c06model{F: conf.F, S: conf.S, in: true}}
+		x := &c06exec{t: t, r: r, conf: conf, e: e, relKind: relKind, m: &c06model{F: conf.F, S: conf.S, in: true}}
+		if relKind == "direct" {
+			x.b = c06newBackend()
+		} else {
+			x.b, x.remove = C06NewRR("c06-b", "10.9.8.7", 8080)
+		}
 		c06baseline = -1
 		if n := c06liveCheckers(); n != 0 {
 			t.Fatalf("c06: %d check goroutine(s) alive before the execution starts", n)
@@ -483,14 +520,14 @@ func c06bubble(t *testing.T, r *vk.Run, conf c06conf, body func(x *c06exec)) {
 
 var c06failKinds = []int{evChkErr, evChkBad, evChkTimeout}
 
-func c06dfs(t *testing.T, r *vk.Run, conf c06conf, failKind, depth int) {
-	fam := fmt.Sprintf("dfs %s %s d%d", conf, c06evName[failKind], depth)
+func c06dfs(t *testing.T, r *vk.Run, conf c06conf, failKind int, relKind string, depth int) {
+	fam := fmt.Sprintf("dfs %s %s %s d%d", conf, c06evName[failKind], relKind, depth)
 	alphabet := []int{evReqOK, evReqFail, evChkOK, failKind, evTick, evRelease}
 	complete := true
 	var nth int64
 	n := vk.ExploreSharded(r, fam, 4, -1, func(ch *vk.Chooser) {
 		nth++
-		c06bubble(t, r, conf, func(x *c06exec) {
+		c06bubble(t, r, conf, relKind, func(x *c06exec) {
 			id := func() string { return ch.CaseID(fam) }
 			for d := 0; d < depth && !x.bad; d++ {
 				var evs []int
@@ -536,10 +573,10 @@ func c06dfs(t *testing.T, r *vk.Run, conf c06conf, failKind, depth int) {
 // judged and counted (the prefix was judged as the last operation of a shorter history). It
 // returns the canonical state key and the operations enabled in the reached state; ok=false if
 // the last operation produced a violation (reported; the history is not extended).
-func c06runHist(t *testing.T, r *vk.Run, conf c06conf, name string, hist []int) (key string, en []int, ok bool) {
+func c06runHist(t *testing.T, r *vk.Run, conf c06conf, relKind, name string, hist []int) (key string, en []int, ok bool) {
 	id := func() string { return name + "|ops:" + vk.IntsString(hist) }
 	ok = true
-	c06bubble(t, r, conf, func(x *c06exec) {
+	c06bubble(t, r, conf, relKind, func(x *c06exec) {
 		for i, ev := range hist {
 			if !x.enabled(ev) {
 				t.Fatalf("c06: operation %s of %v is not enabled (nondeterministic replay?)", c06evName[ev], hist)
@@ -567,12 +604,12 @@ func c06runHist(t *testing.T, r *vk.Run, conf c06conf, name string, hist []int) 
 	return key, en, ok
 }
 
-func c06bfs(t *testing.T, r *vk.Run, conf c06conf, depth int) {
-	name := fmt.Sprintf("bfs %s", conf)
+func c06bfs(t *testing.T, r *vk.Run, conf c06conf, relKind string, depth int) {
+	name := fmt.Sprintf("bfs %s %s", conf, relKind)
 	if r.Replaying() {
 		rc := r.ReplayCase()
 		if strings.HasPrefix(rc, name+"|ops:") && r.Case(rc) {
-			c06runHist(t, r, conf, name, vk.ParseInts(strings.TrimPrefix(rc, name+"|ops:")))
+			c06runHist(t, r, conf, relKind, name, vk.ParseInts(strings.TrimPrefix(rc, name+"|ops:")))
 		}
 		return
 	}
@@ -582,7 +619,7 @@ func c06bfs(t *testing.T, r *vk.Run, conf c06conf, depth int) {
 	}
 	complete := true
 	seen := map[string]bool{}
-	k0, en0, _ := c06runHist(t, r, conf, name, nil)
+	k0, en0, _ := c06runHist(t, r, conf, relKind, name, nil)
 	r.Case(name + "|ops:")
 	seen[k0] = true
 	frontier := []node{{nil, en0}}
@@ -593,7 +630,7 @@ func c06bfs(t *testing.T, r *vk.Run, conf c06conf, depth int) {
 		for _, nd := range frontier {
 			for _, op := range nd.en {
 				nh := append(append(make([]int, 0, len(nd.hist)+1), nd.hist...), op)
-				k, en, ok := c06runHist(t, r, conf, name, nh)
+				k, en, ok := c06runHist(t, r, conf, relKind, name, nh)
 				r.Case(name + "|ops:" + vk.IntsString(nh))
 				if !ok {
 					continue
@@ -757,6 +794,9 @@ func TestVerifC06(t *testing.T) {
 	r := vk.Start(t, "C06")
 	defer r.Finish()
 	http.DefaultTransport = c06transport{}
+	if C06NewRR == nil {
+		t.Fatalf("c06: c06x_verif_test.go (reload helper in package backend_test) is not part of the build")
+	}
 	defer SetCheckConfFetcher(nil)
 
 	var confs []c06conf
@@ -769,12 +809,12 @@ func TestVerifC06(t *testing.T) {
 	t0 := time.Now()
 	// A2: BFS per configuration
 	bfsDepth := r.Pick(9, 13)
-	for _, conf := range confs {
+	for ci, conf := range confs {
 		idx++
 		if !r.Mine(idx) {
 			continue
 		}
-		c06bfs(t, r, conf, bfsDepth)
+		c06bfs(t, r, conf, c06relKinds[(ci+1)%len(c06relKinds)], bfsDepth)
 	}
 	r.Set("max_time_A2", time.Since(t0).Seconds())
 	t0 = time.Now()
@@ -787,7 +827,7 @@ func TestVerifC06(t *testing.T) {
 			if !r.Thorough() && !r.Replaying() && k != ci%len(c06failKinds) {
 				continue
 			}
-			c06dfs(t, r, conf, fk, dfsDepth)
+			c06dfs(t, r, conf, fk, c06relKinds[k], dfsDepth)
 		}
 	}
 	r.Set("max_time_A1", time.Since(t0).Seconds())
